@@ -51,8 +51,12 @@ impl<F: NttFriendlyFieldElement> ClientMemory<F> {
             ));
         }
 
+        let prng_seed: [u8; 32] = rng.random();
+        #[cfg(feature = "verif-hooks")]
+        let prng_seed = crate::verif_hooks::prio2::shard_proof_seed_override().unwrap_or(prng_seed);
+
         Ok(Self {
-            prng: Prng::from_prio2_seed(&rng.random()),
+            prng: Prng::from_prio2_seed(&prng_seed),
             points_f: vec![F::zero(); n],
             points_g: vec![F::zero(); n],
             evals_f: vec![F::zero(); 2 * n],
